@@ -423,6 +423,54 @@ def plugin_oracle(ctx: Ctx, tmp: Path):
                                 {"call": f"plugins.get({pkg!r}, {n!r})"})
 
 
+NOT_PLUGINS = {
+    "midgard.parsers": ["rinex4_obs", "sinex_bias", "no_such_parser", "_parser_chain", "__init__"],
+    "midgard.writers": ["rinex3_obs", "no_such_writer", "_writers"],
+    "midgard.data.fieldtypes": ["angle", "no_such_fieldtype", "_fieldtype"],
+}
+
+
+def plugin_history_oracle(ctx: Ctx, rng, only: Optional[Dict[str, List[str]]] = None):
+    """the listing is a function of the source tree, not of the questions asked before: in a fresh interpreter, list and
+    resolve every parser / writer / field type, ask exists() / get() / load() about names that are not plug-ins, list and
+    resolve again - the listing must be unchanged and every listed name must still resolve"""
+    jobs = []
+    if only is not None:
+        jobs.append(only)
+    else:
+        for j in range(ctx.budget(3, 10)):
+            qs = {}
+            for pkg, names in NOT_PLUGINS.items():
+                kinds = ["e:"] if j == 0 else ["e:", "e:", "g:", "l:"]
+                qs[pkg] = [rng.choice(kinds) + n for n in rng.sample(names, rng.randint(1, len(names)))]
+            jobs.append(qs)
+    with cf.ThreadPoolExecutor(max_workers=8) as exr:
+        res = list(exr.map(lambda q: worker("plughist", {"questions": q}), jobs))
+    hit = False
+    for qs, r in zip(jobs, res):
+        case = {"phase": "plugin-history", "questions": qs}
+        ctx.case(case, nontrivial=True)
+        ctx.count("plugin-history")
+        for pkg, q, ans in r["answers"]:
+            if ans:
+                ctx.violate(f"plugin-question:{pkg}", f"plugins.{ {'e': 'exists', 'g': 'get', 'l': 'load'}[q[0]] }({pkg!r}, {q[2:]!r}) "
+                            f"succeeds for a name that is not a plug-in", case)
+                hit = True
+        for pkg, n, why in r["unresolved_before"]:
+            ctx.violate(f"plugin:{pkg.split('.')[-1]}.{n}", f"listed name {n!r} of {pkg} does not resolve in a fresh interpreter: {why[:200]}", case)
+            hit = True
+        for pkg in r["after"]:
+            extra = sorted(set(r["after"][pkg]) - set(r["before"][pkg]))
+            gone = sorted(set(r["before"][pkg]) - set(r["after"][pkg]))
+            bad = [u for u in r["unresolved_after"] if u[0] == pkg and u not in r["unresolved_before"]]
+            if extra or gone or bad:
+                ctx.violate(f"plugin-listing-after-questions:{pkg}",
+                            f"after asking {qs[pkg]} the listing of {pkg} changed (new {extra}, lost {gone}) and "
+                            f"{len(bad)} listed name(s) do not resolve: {[b[1:] for b in bad][:3]}", case)
+                hit = True
+    return hit
+
+
 def static_id_for(dyn_id: str, kind: str, static_cells: Dict[str, str]) -> Optional[str]:
     """map a run-time cell to the id the translator gives it"""
     if dyn_id in static_cells:
@@ -476,26 +524,6 @@ def run(ctx: Ctx):
     finally:
         shutil.rmtree(tmp, ignore_errors=True)
     ctx.extra["wall_explore_s"] = round(time.time() - t_start, 1)
-    escalate_unexplained(ctx)
-
-
-def escalate_unexplained(ctx: Ctx):
-    """common.finish lets a listed known finding 'explain' any broken obligation or correspondence.  The finding of
-    this property (plugin:parsers.rinex_nav) is permanent, so a broken theorem/correspondence that no *unlisted*
-    oracle failure accounts for is reported here as a violation of its own (with what no longer checks)."""
-    known = {k for k, _ in common.load_known(ctx.prop)[0]}
-    if any(v.key not in known for v in ctx.violations):
-        return
-    broken = []
-    if ctx.proof is not None and not ctx.proof.ok:
-        broken += [f"theorem/obligation: {f}" for f in ctx.proof.failed] or ["theorem/obligation: lake build failed"]
-    broken += sorted({f"correspondence: {d['correspondence']}" for d in ctx.corr_broken})
-    if broken:
-        ctx.violate("no-failing-input-found:" + broken[0][:80],
-                    "no-failing-input-found: the history exploration found no parse that differs from a fresh interpreter, but "
-                    + "; ".join(broken)[:600],
-                    {"no_longer_checks": broken, "disagreements": ctx.corr_broken[:10],
-                     "build_log_tail": ctx.proof.log_tail if ctx.proof is not None else ""})
 
 
 def _explore(ctx, drv, rng, tmp, static_cells, effects, mech, tinfo):
@@ -667,7 +695,8 @@ def _explore(ctx, drv, rng, tmp, static_cells, effects, mech, tinfo):
     known = [n for n in names]
     jobs = []
     for _ in range(ctx.budget(6, 40)):
-        seq = [rng.choice(known + ["no_such_parser"]) for _ in range(rng.randint(1, 6))]
+        seq = [rng.choice(["g:", "g:", "l:", "e:"]) + rng.choice(known + ["no_such_parser", "rinex4_obs", "_parser_chain"])
+               for _ in range(rng.randint(1, 6))]
         jobs.append(seq)
     with cf.ThreadPoolExecutor(max_workers=12) as exr:
         res = list(exr.map(lambda s: worker("reg", {"package": PKG, "names": s}), jobs))
@@ -677,10 +706,11 @@ def _explore(ctx, drv, rng, tmp, static_cells, effects, mech, tinfo):
         ctx.case({"phase": "registry", "gets": seq}, nontrivial=len(seq) > 1)
         ctx.count("registry-sequence")
         if m != impl:
-            ctx.disagree("registry model (regGet) vs plugins.get", {"gets": seq}, m, impl)
+            ctx.disagree("registry model (regGet/regExists) vs plugins.get/load/exists", {"questions": seq}, m, impl)
 
     # ---- plug-in oracle
     plugin_oracle(ctx, tmp)
+    plugin_history_oracle(ctx, rng)
     ctx.traces = ex.parses
     ctx.extra["in_process_events"] = len(ex.log)
     ctx.rule = ("inputs: every (parser, example file) of tests/parsers/example_files + generated RINEX-3 headers (well-formed and "
@@ -696,6 +726,13 @@ def replay(payload):
     c = payload.get("replay", payload)
     print("key:", payload.get("key"))
     print("what:", payload.get("what"))
+    if c.get("phase") == "plugin-history":
+        ctx = Ctx("C16", "quick", 0)
+        hit = plugin_history_oracle(ctx, ctx.rng, only=c["questions"])
+        for v in ctx.violations:
+            print(" ", v.key, "-", v.what[:300])
+        print("VIOLATION reproduced" if hit else "not reproduced")
+        return 1 if hit else 0
     if "history" not in c:
         if "call" in c:
             print("call to repeat:", c["call"])
